@@ -70,6 +70,14 @@ def make_pkg(rng, nres, sizes=(0, 1, 3, 100, 101), same_schema=False):
     return names, fields, tables
 
 
+def _casts(field, value):
+    try:
+        field.cast_value(value)
+        return True
+    except Exception:
+        return False
+
+
 def run_step_reuse(case, rng):
     """ONE step object (these steps are plain closures) used in two flows over different packages: whatever it
     resolved for the first package (default source, default target ...) must not stick."""
@@ -143,7 +151,20 @@ def run_case(case):
     shared_schema = fam == 'concatenate' and not case.get('big') and \
         boot.rng(case['seed'], 'C16', 'shared', case['idx']).random() < 0.25
     names, fields, tables = make_pkg(rng, nres, sizes, same_schema=(fam == 'duplicate_alias' or shared_schema))
-    srcs = lambda: [lab.source(n, gen.schema_fields(fields[n]), tables[n]) for n in names]   # noqa: E731
+    keyed_names = {}
+
+    def srcs():
+        out = []
+        for n in names:
+            sf_ = gen.schema_fields(fields[n])
+            if n in keyed_names:
+                for f_ in sf_:
+                    if f_['name'] == 'tag':
+                        f_['constraints'] = {'enum': ['T%d' % keyed_names[n]], 'pattern': 'T%d' % keyed_names[n]}
+            out.append(lab.source(n, sf_, tables[n]))
+            if n in keyed_names:
+                out.append(d.set_primary_key(['seq'], resources=n))
+        return out
     if shared_schema:
         def srcs():
             one_schema = {'fields': gen.schema_fields(fields[names[0]])}
@@ -202,6 +223,22 @@ def run_case(case):
         if rng.random() < 0.4:
             mapping['only_target'] = ['nonexistent']
             types['only_target'] = 'string'
+        keyed = not shared_schema and boot.rng(case['seed'], 'C16', 'keyed', case['idx']).random() < 0.25
+        if keyed:
+            # every selected resource has a valid key of its own ('seq' counts its rows) and constraints of its own on a
+            # common field: what the target declares must hold for ALL the rows it receives
+            for j_, n in enumerate(sel):
+                fields[n] = fields[n] + [('seq', 'integer'), ('tag', 'string')]
+                for i_, r in enumerate(tables[n]):
+                    r['seq'] = i_
+                    r['tag'] = 'T%d' % j_
+            mapping['seq'] = []
+            mapping['tag'] = []
+            types['seq'] = 'integer'
+            types['tag'] = 'string'
+            keyed_names.update({n: j_ for j_, n in enumerate(sel)})
+            cov['config']['concatenate/sources_with_keys_and_constraints_of_their_own'] = 1
+            cfg['keyed_sources'] = True
         if shared_schema:
             cov['config']['concatenate/resources_share_one_schema_object'] = 1
             cfg['shared_schema_object'] = True
@@ -459,6 +496,21 @@ def run_case(case):
                        brows[bad] if bad is not None else None), mech)
         else:
             rows, types = spec[1], spec[2]
+            if fam == 'concatenate' and cfg.get('keyed_sources'):
+                # what the target declares (key, constraints) must hold for all the rows it emits
+                tpk = gdesc['schema'].get('primaryKey') or []
+                tpk = [tpk] if isinstance(tpk, str) else list(tpk)
+                if tpk and len({tuple(repr(r_.get(k_)) for k_ in tpk) for r_ in grows}) != len(grows):
+                    add('target_primary_key', '%r: the concatenated resource declares primaryKey %r, which its %d rows do not '
+                        'satisfy' % (cfg, tpk, len(grows)), 'concatenate/target_primary_key')
+                import tableschema
+                for f_ in gdesc['schema']['fields']:
+                    if f_.get('constraints'):
+                        fo_ = tableschema.Field(f_)
+                        bad_ = next((r_ for r_ in grows if not _casts(fo_, r_.get(f_['name']))), None)
+                        if bad_ is not None:
+                            add('target_constraints', '%r: the concatenated resource declares %r for field %r, row %r violates it'
+                                % (cfg, f_['constraints'], f_['name'], bad_.get('rid')), 'concatenate/target_constraints')
             counters['row_ids_accounted'] += len(rows)
             eq = lab.value_eq if fam == 'concatenate' else lab.strict_eq
             if [r.get('rid') for r in grows] != [r.get('rid') for r in rows]:
